@@ -71,6 +71,7 @@ type fifoMeet struct {
 
 type World struct {
 	fifos map[string]*fifoMeet
+	LastStdout Value // standard output of the last command (vcmd p:FILE prints FILE)
 	// barrier commands (vcmd b:K)
 	barrierN    int
 	barrierWait []*G
@@ -731,6 +732,28 @@ func (m *Machine) runVcmd(dir, text string, args []string) Value {
 				}
 			}
 			w.barrierWait = nil
+		case strings.HasPrefix(a, "p:"):
+			// print the content of a file to the standard output (like cat)
+			p := a[2:]
+			ab := w.absFrom(dir, p)
+			n := w.node(ab)
+			if n == nil || n.Kind != KFile || !w.dotDotOK(dir, p) {
+				return fail("read of missing file " + p)
+			}
+			var d Value = ""
+			if n.C != nil && n.C.Data != nil {
+				d = n.C.Data
+			}
+			if ls, isL := d.(*Lines); isL {
+				if sd, ok := m.linesToData(ls); ok {
+					d = sd
+				}
+			}
+			if w.LastStdout == nil {
+				w.LastStdout = d
+			} else {
+				w.LastStdout = m.concatV(w.LastStdout, d)
+			}
 		case strings.HasPrefix(a, "e:"):
 			// concrete fault (model validation): the command stops here with this exit status;
 			// 255 = its shell is killed by a signal
